@@ -230,6 +230,60 @@ theorem or_per_event (cat) (c : OrPred) (l r : W) (sl : St l) (sr : St r) (e : E
 theorem or_stats_sum (c : OrPred) (l r : W) (sl : St l) (sr : St r) :
     statsOf (.or c l r) (sl, sr) = (statsOf l sl).add (statsOf r sr) := rfl
 
+/-! ## Normalize in a pipeline -/
+
+/-- one call of `Normalize<w>`: the inner writer is fed exactly what the queue model releases -/
+theorem norm_handle (cat) (w : W) (n n' : Norm) (s : St w) (e : Ev) (out : List Ev)
+    (h : n.handle e = some (n', out)) :
+    handle cat (.norm w) (some n, s) e = ((some n', (runFrom cat w s [] out).1), (runFrom cat w s [] out).2) := by
+  simp only [handle, h]
+  rfl
+
+/-- **`Normalize` is a pre-filter**: on a stream on which `Normalize` hits no panic branch, the inner
+    pipeline `w` behaves exactly as if it had been fed the re-ordered stream (`normRun`'s output) directly —
+    same leaf records, same state (hence same statistics and verdict). What that re-ordered stream is, is
+    C11's subject (`C11.norm_T1_perm`: a permutation of the input). -/
+theorem norm_prefilter_from (cat) (w : W) (n n' : Norm) (s : St w) (acc : List Out) (evs : List Ev) (outs : List (List Ev))
+    (h : normRun n evs = some (n', outs)) :
+    runFrom cat (.norm w) (some n, s) acc evs =
+      ((some n', (runFrom cat w s [] outs.flatten).1), acc ++ (runFrom cat w s [] outs.flatten).2) := by
+  induction evs generalizing n s acc outs with
+  | nil =>
+    simp only [normRun, Option.some.injEq, Prod.mk.injEq] at h
+    obtain ⟨rfl, rfl⟩ := h
+    simp [runFrom]
+  | cons e es ih =>
+    simp only [normRun] at h
+    cases hh : n.handle e with
+    | none => simp [hh] at h
+    | some r =>
+      obtain ⟨n1, out⟩ := r
+      simp only [hh] at h
+      cases hr : normRun n1 es with
+      | none => simp [hr] at h
+      | some r2 =>
+        obtain ⟨n2, outs2⟩ := r2
+        simp only [hr, Option.some.injEq, Prod.mk.injEq] at h
+        obtain ⟨rfl, rfl⟩ := h
+        rw [runFrom_cons, norm_handle cat w n n1 s e out hh]
+        rw [ih n1 _ _ outs2 hr]
+        simp only [flatten_cons]
+        rw [runFrom_append cat w s [] out outs2.flatten]
+        rw [runFrom_acc cat w (runFrom cat w s [] out).1 (runFrom cat w s [] out).2 outs2.flatten]
+        simp [append_assoc]
+
+theorem norm_prefilter (cat) (w : W) (evs : List Ev) (n : Norm) (outs : List (List Ev))
+    (h : normRun Norm.init evs = some (n, outs)) :
+    runW cat (.norm w) evs = ((some n, (runW cat w outs.flatten).1), (runW cat w outs.flatten).2) := by
+  rw [runW_eq_runFrom, runW_eq_runFrom]
+  have := norm_prefilter_from cat w Norm.init n (St.init w) [] evs outs h
+  simpa [St.init] using this
+
+/-- `Normalize` forwards `Arbitrary::write`, the `Stats` getters and the verdict untouched. -/
+theorem norm_identity (w : W) (v : WVal) (ns : Option Norm) (s : St w) :
+    writeW (.norm w) v = writeW w v ∧ statsOf (.norm w) (ns, s) = statsOf w s ∧
+    execFailed (.norm w) (ns, s) = execFailed w s := ⟨rfl, rfl, rfl⟩
+
 /-! ## identities -/
 
 /-- `AssertNormalized` / `discard::*` do not touch events, writes or statistics. -/
